@@ -1,4 +1,83 @@
 import PeptVerif.Model.Proto
-/-! driver for C10 (placeholder: replies bad-op to everything until the model is written) -/
-def step (_line : String) : String := "bad-op"
-def main : IO Unit := Proto.runDriver step
+import PeptVerif.Model.ProtoC10
+import PeptVerif.Model.ModDbGen
+/-! driver for C10: the resolver model over the generated vocabularies -/
+open Proto ProtoC10 ModDb Formula
+
+def T : Tables := Gen.tables
+
+def dbOf? (k : String) : Option (List Str × List Entry) :=
+  match k with
+  | "unimod" => some (pUnimod, T.unimod)
+  | "psi" => some (pPsi, T.psimod)
+  | "xlmod" => some (pXlmod, T.xlmod)
+  | "resid" => some (pResid, T.resid)
+  | "gno" => some (pGno, T.gno)
+  | "mono" => some ([], T.mono)
+  | _ => none
+
+def showBool (b : Bool) : String := if b then "True" else "False"
+
+def showOptStr : Option Str → String
+  | none => "None"
+  | some s => "S" ++ encode s
+
+def showEntry (e : Entry) : String :=
+  "\t".intercalate [encode e.id, encode e.name, ",".intercalate (e.syns.map encode), showOptDec e.mono, showOptDec e.avg,
+    showOptStr e.comp]
+
+def showConv : Conv → String
+  | .num n => showNum n
+  | .special => "SPECIAL"
+  | .str => "STR"
+
+def step (line : String) : String :=
+  match splitTab line with
+  | ["mass", m, mono] =>
+    match parseBool? mono with
+    | some b => showMass (modMass T (decode m) b)
+    | none => "bad-op"
+  | ["massmult", m, k, mono] =>
+    match parseBool? mono, k.toInt? with
+    | some b, some k => showMass (modMassMult T (decode m) k b)
+    | _, _ => "bad-op"
+  | ["comp", m] => showCompRes (modComp T (decode m))
+  | ["compmult", m, k] =>
+    match k.toInt? with
+    | some k => showCompRes (modCompMult T (decode m) k)
+    | none => "bad-op"
+  | ["is", kind, s] =>
+    match dbOf? kind with
+    | some (ps, db) =>
+      if kind == "unimod" || kind == "psi" then showBool (isDbStr ps db (decode s)) else showBool (hasPrefix ps (decode s))
+    | none => "bad-op"
+  | ["strip", kind, s] =>
+    match dbOf? kind with
+    | some (ps, _) => encode (stripPrefix ps (decode s))
+    | none => "bad-op"
+  | ["getmass", kind, s, mono] =>
+    match dbOf? kind, parseBool? mono with
+    | some (ps, db), some b => showMass (getMass T db (stripPrefix ps (decode s)) b)
+    | _, _ => "bad-op"
+  | ["getcomp", kind, s] =>
+    match dbOf? kind with
+    | some (ps, db) =>
+      match getComp db (stripPrefix ps (decode s)) with
+      | .ok f => "OK " ++ encode f
+      | .error e => showErr e
+    | none => "bad-op"
+  | ["convert", s] => showConv (convertType (decode s))
+  | ["count", kind] =>
+    match dbOf? kind with
+    | some (_, db) => toString db.length
+    | none => "bad-op"
+  | ["entry", kind, i] =>
+    match dbOf? kind, i.toNat? with
+    | some (_, db), some i =>
+      match db[i]? with
+      | some e => showEntry e
+      | none => "None"
+    | _, _ => "bad-op"
+  | _ => "bad-op"
+
+def main : IO Unit := runDriver step
